@@ -18,3 +18,8 @@ def gen_config(rng, tier):
     faults = [f for f in ("rejected_op",) if rng.random() < 0.7]
     return {"n": n, "steps": rng.randrange(5, 40), "ops": ops, "faults": faults, "flags": ["c09"],
             "max_gates": rng.choice([4, 8, 12]), "backend": "torch" if rng.random() < 0.15 else "numpy"}
+
+
+# reach guard: a full-size batch in which one of these never fired means the workload or the
+# harness has rotted (exit 2, never a pass)
+REQUIRED_REACH = ['gate_slid_back_2+_layers', 'forward_through_circuit_map', 'forward_through_layer_compiled_only', 'compose_of_compiled_circuit', 'rejected_op', 'config:copy', 'config:compose', 'compile_with_3+_layers']
